@@ -880,7 +880,8 @@ Proof.
     - eapply Permutation_in; [exact Hp|exact Hx].
     - eapply Permutation_in; [apply Permutation_sym; exact Hp|exact Hx]. }
   rewrite He. destruct (existsb _ visit'); [reflexivity|].
-  rewrite (isort_perm alias_ltb fst) with (l2 := visit'); [reflexivity| | | |exact Hp|exact Hn].
+  rewrite (isort_perm alias_ltb fst) with (l2 := filter (fun h => negb (String.eqb (fst h) default_host)) visit');
+    [reflexivity| | | |apply filter_perm; exact Hp|apply NoDup_fst_filter; exact Hn].
   - intros a. apply str_ltb_irrefl.
   - intros a b c. apply str_ltb_trans.
   - intros a b Hne H. destruct (str_ltb (fst b) (fst a)) eqn:E; [exact E|].
